@@ -63,6 +63,17 @@ Theorem C01_failed_run_leaves_a_consistent_state : forall (V : Type) (F : cmd ->
   | FOther => False
   end.
 Proof. exact failed_run_consistent. Qed.
+(* Put together, from a fresh program: a first run in which something fails, then -- the cause repaired -- a second run; the second
+   run executes exactly the commands the first one had not finished and ends with every result as if nothing had failed. *)
+Theorem C01_fail_then_retry : forall (V : Type) (F : cmd -> list V -> V) (Fo : cmd -> list V -> option V),
+  (forall c vs v, Fo c vs = Some v -> v = F c vs) ->
+  forall P fuel m' k, accepted P -> length P < fuel -> run_programf Fo fuel P [] = FFailed m' k ->
+  forall t, exists suffix s, run_program F fuel P {| memo := m'; trace := t |} = Ok s /\ trace s = t ++ suffix /\
+    (forall n w, assoc m' n = Some w -> get s n = Some w) /\
+    (forall n, In n (names P) -> fin s n = true /\
+       count_ev (Enter n) suffix = (if assoc m' n then 0 else 1) /\ count_ev (Exit n) suffix = (if assoc m' n then 0 else 1)) /\
+    solves V F P (get s).
+Proof. exact fail_then_retry. Qed.
 (* the diamond above after a run in which command 2 failed: 0 and 1 are memoised, 3 and 2 were entered and aborted *)
 Example C01_resume_example :
   let P := [ {| nm := 3; rl := [(true, 1); (false, 2)] |}; {| nm := 1; rl := [(true, 0)] |};
@@ -79,3 +90,4 @@ Print Assumptions C01_acyclic_accepted.
 Print Assumptions C01_history.
 Print Assumptions C01_resume.
 Print Assumptions C01_failed_run_leaves_a_consistent_state.
+Print Assumptions C01_fail_then_retry.
